@@ -178,7 +178,10 @@ def run(res, tier):
            message='SendMessageToThreadPool can dispatch while the client is being handled')
     f = fx.fn1(TP + '::ThreadFinishedProcessingClientMessages')
     clr = [n for n in f.walk() if n['k'] == 'BinaryOperator' and n.get('op') == '=' and A.strip_casts(n['ch'][0])['k'] == 'UnaryOperator' and n['ch'][1].get('v') == 0]
-    swap = [c for c in f.walk() if c['k'] == 'CXXMemberCallExpr' and (c.get('q') or '').endswith('::SwapContents')]
+    from msa import ip as IP_
+    # the promotion (SwapContents of the deferred queue into the pending one) may sit in a private helper: the call of that helper is then the event in this function
+    swap = [top for (top, leaves) in IP_.may_sites(fx, f, lambda c: c['k'] == 'CXXMemberCallExpr' and (c.get('q') or '').endswith('::SwapContents'),
+                                                   '^' + TP + '::(?!DispatchPendingMessagesUnsafe$)')]
     disp = P.calls(f, r'::DispatchPendingMessagesUnsafe$')
     guards_decl = [v for v in f.walk() if v['k'] == 'VarDecl' and L.GUARD_TYPES.search(v.type())]
     unlocks = [c for c in f.walk() if c['k'] == 'CXXMemberCallExpr' and (c.get('q') or '').split('::')[-1] in ('UnlockEarly', 'unlock')]
@@ -244,7 +247,16 @@ def run(res, tier):
                    'discarded' % missing)
     f = fx.fn1(TP + '::ThreadFinishedProcessingClientMessages')
     # the deferred queue is promoted whenever it is non-empty (accepted emptiness idioms only)
-    gp = [c for c in f.walk() if c['k'] == 'CXXMemberCallExpr' and (c.get('q') or '').endswith('::GetOrPut') and c.receiver() is not None and A.strip_casts(c.receiver()).get('n') == '_pendingMessages']
+    is_gp = lambda c: c['k'] == 'CXXMemberCallExpr' and (c.get('q') or '').endswith('::GetOrPut') and c.receiver() is not None and A.strip_casts(c.receiver()).get('n') == '_pendingMessages'
+    gp = [c for c in f.walk() if is_gp(c)]
+    if not gp:
+        # the promotion block may have been extracted into a private helper (msa/ip.py): judge it where it is
+        from msa import ip as IP
+        for g_ in IP.scope(fx, f, '^' + TP + '::'):
+            if g_ is not f and any(is_gp(c) for c in g_.walk()) and not g_.q.endswith('::SendMessageToThreadPool') and not g_.q.endswith('::DispatchPendingMessagesUnsafe'):
+                f = g_
+                gp = [c for c in f.walk() if is_gp(c)]
+                break
     if not gp:
         raise AnalysisBroken('HANDOFF-ATOMIC: the promotion of deferred Messages (_pendingMessages.GetOrPut) was not found')
     okp, howp = False, None
@@ -264,7 +276,7 @@ def run(res, tier):
                     okp, howp = True, gn.text(40)
                 else:
                     howp = '%s (not an emptiness test)' % gn.text(40)
-    res.ob('HANDOFF-ATOMIC', f.where(gp[0]), 'completion promotes the deferred queue whenever it is non-empty', okp, how=howp, function=f.q, key='HANDOFF-ATOMIC|%s|promote-nonempty' % f.q,
+    res.ob('HANDOFF-ATOMIC', f.where(gp[0]), 'completion promotes the deferred queue whenever it is non-empty', okp, how=howp, function=f.q, key='HANDOFF-ATOMIC|%s::ThreadFinishedProcessingClientMessages|promote-nonempty' % TP,
            message='ThreadFinishedProcessingClientMessages promotes the deferred Messages under `%s` instead of "the deferred queue has items": a single deferred Message stays stranded while the client is '
                    'marked idle; it is never handled, later Messages overtake it and UnregisterClient() blocks forever' % (howp or 'no emptiness test on the deferred queue'))
     # ---- round-2 additions
